@@ -18,7 +18,10 @@ import (
 
 const vMaxId = 6
 
-type vPoint struct{ id uint64 }
+type vPoint struct {
+	id  uint64
+	gen int // which Set of this id produced the object (a cached neighbour must be the current one)
+}
 
 func (p vPoint) Id() uint64 { return p.id }
 
@@ -29,6 +32,7 @@ type vVecStore struct {
 	dqOk [vMaxId + 1]bool
 	dmOk [vMaxId + 1][vMaxId + 1]bool
 	distCalls int
+	gen  [vMaxId + 1]int
 	mu   sync.Mutex // the insert workers call into the store concurrently (natively)
 }
 
@@ -37,13 +41,13 @@ func (s *vVecStore) Get(id uint64) (vectorstore.VectorStorePoint, error) {
 	if id > vMaxId || !s.has[id] {
 		return nil, cache.ErrNotFound
 	}
-	return vPoint{id}, nil
+	return vPoint{id, s.gen[id]}, nil
 }
 func (s *vVecStore) GetMany(ids ...uint64) ([]vectorstore.VectorStorePoint, error) {
 	out := make([]vectorstore.VectorStorePoint, 0, len(ids))
 	for _, id := range ids {
 		if id <= vMaxId && s.has[id] {
-			out = append(out, vPoint{id})
+			out = append(out, vPoint{id, s.gen[id]})
 		}
 	}
 	return out, nil
@@ -55,7 +59,10 @@ func (s *vVecStore) Set(id uint64, v []float32) (vectorstore.VectorStorePoint, e
 		setHook(id, v)
 	}
 	s.has[id] = true
-	return vPoint{id}, nil
+	if id <= vMaxId {
+		s.gen[id]++
+	}
+	return vPoint{id, s.gen[id]}, nil
 }
 func (s *vVecStore) Delete(ids ...uint64) error {
 	s.mu.Lock()
@@ -68,7 +75,7 @@ func (s *vVecStore) Delete(ids ...uint64) error {
 func (s *vVecStore) ForEach(fn func(vectorstore.VectorStorePoint) error) error {
 	for id := uint64(1); id <= vMaxId; id++ {
 		if s.has[id] {
-			if err := fn(vPoint{id}); err != nil {
+			if err := fn(vPoint{id, s.gen[id]}); err != nil {
 				return err
 			}
 		}
@@ -192,6 +199,9 @@ func (g *vGraph) wellFormed(label string, top uint64) {
 			for i := range node.neighbours {
 				if i < len(node.edges) {
 					vassert(label+"-cached-neighbour-ids-agree", node.neighbours[i].Id() == node.edges[i])
+				}
+				if vp, ok := node.neighbours[i].(vPoint); ok && vp.id <= vMaxId {
+					vassert(label+"-cached-neighbour-is-the-current-vector-of-that-point", vp.gen == g.vs.gen[vp.id])
 				}
 			}
 		}
@@ -506,13 +516,13 @@ func VerifDistSetStep() {
 	ds := NewDistSet(capacity, maxId, vs.DistanceFromFloat(nil))
 	pre := nondetIntRange(0, capacity)
 	for i := 0; i < pre; i++ {
-		ds.AddWithLimit(vPoint{ids[i]})
+		ds.AddWithLimit(vPoint{id: ids[i]})
 	}
 	// now add one more point: either a new id or one seen before
 	k := nondetIntRange(0, len(ids)-1)
 	seenBefore := k < pre
 	before := len(ds.items)
-	ds.AddWithLimit(vPoint{ids[k]})
+	ds.AddWithLimit(vPoint{id: ids[k]})
 	vcover("reached")
 	vassert("capacity-respected", len(ds.items) <= capacity)
 	if seenBefore {
